@@ -56,7 +56,7 @@ Definition entry_eqb (a b : entry) : bool :=
 Definition store_eqb : store -> store -> bool := list_eqb lnat_eqb.
 
 (* ---------- the sinks of a tree and the decorators above each ---------- *)
-Inductive pstep := PCopy | PTag (add discard : list tag) | PStamp | PQueue (c : seg).
+Inductive pstep := PCopy | PTag (add discard : list tag) | PStamp | PQueue (c : option seg).
 Inductive leafkind := LSink | LFail.
 Definition path := list pstep.                  (* from the root down to the leaf *)
 
@@ -96,7 +96,7 @@ Definition tag_finish (now : store) (x : tagstate) : otags :=
   end.
 
 Definition route_step (r : route) (s : pstep) : route :=
-  match s with PQueue c => route_code c r | _ => r end.
+  match s with PQueue c => route_code_opt c r | _ => r end.
 Definition is_stamp (s : pstep) : bool := match s with PStamp => true | _ => false end.
 Definition fill (t : tsv) : tsv := match t with TsNone => TsFilled | TsGiven k => TsGiven k | TsFilled => TsFilled end.
 
